@@ -2,7 +2,7 @@
 (* C17: parseCIRCexplorer.  CASES_FILE: array of                                  *)
 (* [chrom, gene, tx, blocks, kind ("circRNA"|"ciRNA"), enough (thresholds met),     *)
 (*  startRange, endRange, outcome ("record"|"absent"), frags, seq, bsj, idOk]       *)
-EXTENDS Parsers, TLC, Json, IOUtils
+EXTENDS Peptides, Parsers, TLC, Json, IOUtils
 Cases == JsonDeserialize(IOEnv.CASES_FILE)
 ToSet(s) == {s[i] : i \in 1..Len(s)}
 VARIABLE i
@@ -26,6 +26,23 @@ Accepts(iv) ==
   /\ ((o[2] >= C.endRange[1] /\ o[2] <= C.endRange[2]) \/ o[2] <= 0)
 SomeIntronAccepts == Len(C.blocks) = 1 /\ \E iv \in Introns(C.tx) : Accepts(iv)
 
+(***************************************************************************)
+(* Peptides of a circRNA (C01 / C02 on circular backbones, no further       *)
+(* variants): the circle is read as four consecutive copies; translation     *)
+(* starts at every ATG of the first copy in any frame and runs to the next   *)
+(* stop or to the end of the fourth copy (fragments reaching that open end   *)
+(* are not reported); not reported either: digestion products of the linear  *)
+(* host transcript and canonical peptides.                                   *)
+(***************************************************************************)
+Circle == CircSeqExpected(C.chrom, C.gene, C.blocks)
+Four == Circle \o Circle \o Circle \o Circle
+CircStarts == {k \in 0..(Len(Circle) - 1) : IsStart(Four, k)}
+CircPeps(dropTail) == UNION {LET o == OrfOf(Four, k, {}) IN OrfPeptides(o.pep, C.cfg, TRUE, o.open, dropTail) : k \in CircStarts}
+HostTx == [seq |-> C.host.seq, coding |-> C.host.coding, orfStart |-> C.host.orfStart, orfEnd |-> C.host.orfEnd,
+           startNF |-> C.host.startNF, endNF |-> C.host.endNF, sec |-> ToSet(C.host.sec)]
+CircRequired == CircPeps(TRUE) \ (RefPeptides(HostTx, C.cfg) \cup CanonicalPool(C.proteome, C.cfg))
+CircObs == {C.allobs[k] : k \in 1..Len(C.allobs)}
+
 Verdict ==
   /\ Clause("fragments", C.outcome = "record" => ToSet(C.frags) = CircFragmentsExpected(C.gene, C.blocks))
   /\ Clause("sequence", C.outcome = "record" => C.seq = CircSeqExpected(C.chrom, C.gene, C.blocks))
@@ -36,5 +53,7 @@ Verdict ==
   /\ Clause("exact_intron_emitted", (C.enough /\ C.kind = "ciRNA" /\ ExactIntron /\ 0 >= C.startRange[1] /\ 0 <= C.startRange[2]) => C.outcome = "record")
   /\ Clause("intron_start_tolerance", (C.kind = "ciRNA" /\ StartOutOfRange) => C.outcome = "absent")
   /\ Clause("intron_tolerance", (C.enough /\ C.kind = "ciRNA") => ((C.outcome = "record") = SomeIntronAccepts))
+  /\ Clause("circ_peptides_sound", C.cvran => \A k \in 1..Len(C.cpeps) : C.cpeps[k] \in CircPeps(FALSE))
+  /\ Clause("circ_peptides_complete", (C.cvran /\ C.outcome = "record") => CircRequired \subseteq CircObs)
   /\ PrintT(<<"V", i, "done">>)
 =============================================================================
